@@ -222,7 +222,7 @@ var propStreams = &kit.Prop[Conn]{
 }
 
 func TestStreamsOfOneFactory(t *testing.T) {
-	n := kit.N(1200, 6000)
+	n := kit.N(1200, 3000)
 	if kit.Race() {
 		t.Skip("single goroutine")
 	}
